@@ -147,6 +147,22 @@ func libFrame() string {
 
 func extCard(n parse.NodeType) map[parse.NodeType]parse.Cardinality { return nil }
 
+// a caller that allows one extension statement under EVERY statement type (also under those the RFC tables have no entry for)
+func extCardEverywhere(n parse.NodeType) map[parse.NodeType]parse.Cardinality {
+	return map[parse.NodeType]parse.Cardinality{parse.NodeConfigdHelp: {Start: '0', End: '1'}}
+}
+
+// ... or only under a few
+func extCardSome(n parse.NodeType) map[parse.NodeType]parse.Cardinality {
+	switch n {
+	case parse.NodeUnknown, parse.NodeDescription, parse.NodeLeaf, parse.NodeModule:
+		return map[parse.NodeType]parse.Cardinality{parse.NodeConfigdHelp: {Start: '0', End: 'n'}}
+	}
+	return map[parse.NodeType]parse.Cardinality{}
+}
+
+var cardMode int
+
 func doParse(in input, si *parse.StringInterner, ai *parse.ArgInterner, withCard bool) (o outcome) {
 	defer func() {
 		if r := recover(); r != nil {
@@ -157,7 +173,7 @@ func doParse(in input, si *parse.StringInterner, ai *parse.ArgInterner, withCard
 	}()
 	var card parse.NodeCardinality
 	if withCard {
-		card = extCard
+		card = []parse.NodeCardinality{extCard, extCardEverywhere, extCardSome}[cardMode%3]
 	}
 	if si != nil {
 		o.tree, o.err = parse.ParseWithInterners(in.name, in.text, card, si, ai)
@@ -440,6 +456,7 @@ func (w world) RunCase(t *tape.Tape, st *super.Stats) *super.Violation {
 		inc("base:raw")
 	}
 	withCard := t.Rare(4)
+	cardMode = t.Draw(3)
 	name := "sim.yang"
 	if t.Rare(5) {
 		name = nameChoices[t.Draw(len(nameChoices))]
